@@ -65,7 +65,7 @@ def run_case(case):
     viol = []
     cset = rng.choice(sorted(COUNTER_SETS))
     cnames = dict(DEFAULTS, **COUNTER_SETS[cset])
-    filehash = rng.random() < 0.3 and cnames['resource-hash'] is not None
+    filehash = rng.random() < 0.3
     pretty = rng.random() < 0.5
     nres = rng.choice([1, 2, 3])
     res = []
